@@ -713,17 +713,18 @@ def r16_annotated_parameters_before_raw_resolution(ctx):
     from ..cfg import cfg_of
     from ..util import Expander
     n = 0
+    per_module = {}
     for mp in ("pandera/api/pandas/model.py", "pandera/api/polars/model.py"):
         m = ctx.ix.module(mp)
+        per_module[mp] = 0
         for f in m.all_functions:
-            if not f.name.startswith("_build_columns"):
-                continue
             sites = [c for c in calls_in(f.node) if callee_last(c) == "dtype" and c.args and txt(c.args[0]).endswith(".raw_annotation")]
             if not sites:
                 continue
             cfg = cfg_of(f.node)
             for c in sites:
                 n += 1
+                per_module[mp] += 1
                 ctx.touched(f)
                 st = c
                 while not isinstance(st, ast.stmt):
@@ -735,8 +736,8 @@ def r16_annotated_parameters_before_raw_resolution(ctx):
                        "reached only when annotation.metadata is empty" if ok else
                        f"`{txt(c)[:60]}` is tried before / regardless of annotation.metadata ({show_condition(pc)}): `ts: Annotated[pl.Datetime, 'ms', 'UTC']` resolves by its origin to "
                        "Datetime('us', None) and the parameters are dropped without an error (the pandas builder and Column(pl.Datetime('ms', 'UTC')) keep them)", f.loc(c))
-    if n < 2:
-        raise AnalysisError(f"model column builders: resolutions of the raw annotation found: {n}")
+    if not all(per_module.values()):
+        raise AnalysisError(f"model column builders: resolutions of the raw annotation found: {per_module}")
 
 
 def run(ctx):
